@@ -21,6 +21,7 @@ RULE = ("per integer type and view (local SDO, remote SDO over the bus, PDO vari
         "local view of 8/16/32-bit types in quick, all types and views in thorough; sampled otherwise) in five spellings (int, "
         "list, slice(a,b), slice(a,b,1), defined name) with all values that fit for widths <= 6 and boundary/random values "
         "above. Signature = (view, type, accessor, spelling / class); non-trivial = raw before the write is not 0.")
+RULE += (" " + 'Widened later: bit lists in any order, MSB-first definitions, negative-step slices, descriptions differing in case/blanks, objects with limits, generated array members, factors 1 / 1.0 / -1, accessor held across assignments.')
 ASSUMPTIONS = ["values written to a bit field fit the field (the property says 'all field values that fit')",
                "ties in value/factor may round either way; float division error of 1e-9 relative is tolerated"]
 REQUIRED = {"phys_checks": 300, "desc_checks": 100, "bits_checks": 2000}
